@@ -9,7 +9,8 @@ SUBSTRATE_VIOLATION=""
 _miri_batch() { # prop seed procs bases_per_proc variants
   local prop="$1" seed="$2" procs="$3" per="$4" vars="$5"
   local T="$SIM/target/miri" L="$SIM/target/miri-logs"; mkdir -p "$L"; rm -f "$L"/$prop-*.log
-  export MIRIFLAGS="-Zmiri-disable-isolation"
+  # leaks are not undefined behaviour: mem::forget and the leaks C04 tolerates are judged by the ledger
+  export MIRIFLAGS="-Zmiri-disable-isolation -Zmiri-ignore-leaks"
   # warm-up build (also proves the harness itself is clean under Miri on a trivial batch)
   ( cd "$SIM" && CARGO_TARGET_DIR="$T" cargo +nightly miri run --offline --no-default-features -- miri-batch --prop "$prop" --seed "$seed" --from 0 --to 0 >"$L/$prop-build.log" 2>&1 ) || { echo "harness error: Miri build failed (see $L/$prop-build.log)"; return 2; }
   local i pids=()
